@@ -18,11 +18,11 @@ def write_case(p, d, dl_text=None, rng=None):
     return os.path.join(d, "p.dl")
 
 
-def read_outputs(p, outdir, rels=None):
+def read_outputs(p, outdir, rels=None, prefix=""):
     res = {}
     for r in p.rels:
         if (rels is None and r.output) or (rels is not None and r.name in rels):
-            path = os.path.join(outdir, r.name + ".csv")
+            path = os.path.join(outdir, prefix + r.name + ".csv")
             if not os.path.exists(path):
                 res[r.name] = None
                 continue
@@ -35,7 +35,7 @@ def read_outputs(p, outdir, rels=None):
     return res
 
 
-def run_souffle(p, d, args=(), outsub="out", timeout=120, env=None, dl="p.dl", jobs=None):
+def run_souffle(p, d, args=(), outsub="out", timeout=120, env=None, dl="p.dl", jobs=None, prefix=""):
     """interpreter run; returns (rc, stderr, {rel: [rows as written]})"""
     out = os.path.join(d, outsub)
     shutil.rmtree(out, ignore_errors=True)
@@ -44,7 +44,7 @@ def run_souffle(p, d, args=(), outsub="out", timeout=120, env=None, dl="p.dl", j
     if jobs is not None:
         cmd += ["-j", str(jobs)]
     rc, so, se = C.sh(cmd, timeout=timeout, env=env, cwd=d)
-    return rc, se, (read_outputs(p, out) if rc == 0 else {})
+    return rc, se, (read_outputs(p, out, prefix=prefix) if rc == 0 else {})
 
 
 def canon(rows):
